@@ -921,6 +921,8 @@ def indicator_value(ispec, sv, c):
         else:
             busy_units = busy
         if k == "ResourceUtilization":
+            if rid in sv.cumul:
+                return None, 0, "utilisation of a cumulative worker is not defined by the docs"
             tot = sum(hi - lo for _, lo, hi in busy_units)
             if c.horizon <= 0:
                 return None, 0, "zero horizon"
@@ -1039,6 +1041,8 @@ def eval_indicators(sv: SpecView, c: Cand, f: Findings, ind_names=None):
         name = ind_names.get(iid, iid)
         rep = c.indicators.get(name)
         kinds = ["Indicator" + ispec["kind"]]
+        if ispec.get("resource") in sv.cumul or any(r in sv.cumul for r in ispec.get("resources") or []):
+            kinds.append("CumulativeWorker")
         if rep is None:
             f.add("C08", "indicator_missing", kinds, I, name)
             continue
